@@ -42,7 +42,6 @@ pub use crate::policy::sft_map::verif_hooks_space_map as sft_space_map;
 pub use crate::policy::sft_map::SFTMap;
 /// `util::heap::layout::map64` (private module).
 #[cfg(target_pointer_width = "64")]
-pub use crate::util::heap::layout::verif_hooks_map32 as map32;
 pub use crate::util::heap::layout::verif_hooks_map64 as map64;
 pub use crate::util::heap::layout::VMMap;
 
